@@ -67,6 +67,9 @@ func c20Program(c *C20Case) (prog string, input string, expect string) {
 			return pre + "a = [1, 2, 3]\nx = a[" + n + "]\nprint a.length() }", "", "READ"
 		case "write-input-index":
 			return "{ print \"pre\"\na[$.i] = 1\nprint a.length() }", "{\"i\":" + n + "}", "LEN"
+		case "write-stepwise":
+			// grow in steps of 900000: no single gap is large, the final index is
+			return pre + "for (i = 900000; i <= " + n + "; i = i + 900000) { a[i] = 1 }\nprint a.length() }", "", "LEN"
 		case "incr-fresh":
 			return pre + "a[" + n + "]++\nprint a.length() }", "", "LEN"
 		}
@@ -245,6 +248,7 @@ func c20Ladders(thorough bool) []c20Ladder {
 	}
 	ls = append(ls, c20Ladder{"index", "write-existing", short, []string{"1000", "999999"}, []string{"2000000", "1000000000000000000"}})
 	ls = append(ls, c20Ladder{"index", "write-nested", short, []string{"1000", "999999"}, []string{"2000000", "1000000000000000000"}})
+	ls = append(ls, c20Ladder{"index", "write-stepwise", []string{"900000", "1800000", "2700000", "9000000"}, []string{"900000"}, []string{"2700000", "9000000"}})
 	ls = append(ls, c20Ladder{"index", "incr-fresh", []string{"1000", "1048576", "1048577", "2000000"}, []string{"1000"}, []string{"2000000"}})
 	ls = append(ls, c20Ladder{"index", "write-input-index", []string{"1000", "1048577", "2000000", "1e18", "1e300"}, []string{"1000"}, []string{"2000000", "1e18", "1e300"}})
 	ls = append(ls, c20Ladder{"index", "read-existing", []string{"2", "3", "1000", "2000000", "1000000000000000000"}, []string{"2"}, nil})
@@ -273,7 +277,7 @@ func contains(xs []string, x string) bool {
 
 func TestC20(t *testing.T) {
 	rec := start(t, "C20", "exploration",
-		"boundary ladders, each rung run through the binary in an isolated subprocess with rusage collected: recursion shapes {direct, mutual over 2 and 3 functions, through a match expression body, through a match block, through an argument of a method call, inside a for-in body, three runaway shapes without a base case} x depths {1, 10, 1000, 3000, 4000, 4090..4100, 5000, 10^4, 10^5}; array indices {0.5, 10^3, 10^5, 999999, 2^20-1, 2^20, 1048576.9, 2^20+1, 2^20+2, 2*10^6, 10^9, 10^18, 1e300 via input} x {write to a fresh / existing / nested array, ++ on a fresh array, index from the input, read}; printf widths {1, 4096, 65535, 65536, 65537, 10^6, 10^12 and negatives} x {s, f, v}; input nesting {100, 1000, 9999, 10000, 10001, 10^5 (10^6 thorough)} x {arrays, objects, mixed}. Each program prints `pre` first and the value afterwards. Oracle: accepted -> exit 0 and the right value (recursive sum, padded length, array length); refused -> exit 1 with a runtime / JSON diagnostic, `pre` on stdout, nothing after; never a signal, Go panic / fatal error, or peak RSS above 1 GiB; the magnitudes the statement names work (depth 1000, a million elements, width 65536, nesting 1000) resp. are refused (depth 10^4, index 2*10^6, width 65537, nesting 10^5); along each ladder the outcome switches at most once from accepted to refused. In-process: random points around each limit agree with the switch point found. Non-trivial: a rung within +-5 of a switch point or >= 10x beyond it. distinct = distinct rung.")
+		"boundary ladders, each rung run through the binary in an isolated subprocess with rusage collected: recursion shapes {direct, mutual over 2 and 3 functions, through a match expression body, through a match block, through an argument of a method call, inside a for-in body, three runaway shapes without a base case} x depths {1, 10, 1000, 3000, 4000, 4090..4100, 5000, 10^4, 10^5}; array indices {0.5, 10^3, 10^5, 999999, 2^20-1, 2^20, 1048576.9, 2^20+1, 2^20+2, 2*10^6, 10^9, 10^18, 1e300 via input} x {write to a fresh / existing / nested array, growth in steps of 900000, ++ on a fresh array, index from the input, read}; printf widths {1, 4096, 65535, 65536, 65537, 10^6, 10^12 and negatives} x {s, f, v}; input nesting {100, 1000, 9999, 10000, 10001, 10^5 (10^6 thorough)} x {arrays, objects, mixed}. Each program prints `pre` first and the value afterwards. Oracle: accepted -> exit 0 and the right value (recursive sum, padded length, array length); refused -> exit 1 with a runtime / JSON diagnostic, `pre` on stdout, nothing after; never a signal, Go panic / fatal error, or peak RSS above 1 GiB; the magnitudes the statement names work (depth 1000, a million elements, width 65536, nesting 1000) resp. are refused (depth 10^4, index 2*10^6, width 65537, nesting 10^5); along each ladder the outcome switches at most once from accepted to refused. In-process: random points around each limit agree with the switch point found. Non-trivial: a rung within +-5 of a switch point or >= 10x beyond it. distinct = distinct rung.")
 	defer rec.Finish()
 	rec.Assume("a watchdog kill (90 s) is inconclusive, never a violation")
 	rec.Replayer("boundary", func(raw json.RawMessage) error {
